@@ -69,6 +69,7 @@ type Exec struct {
 	modMemo       map[*FuncInfo]*ModSet
 	prepared      map[*FuncInfo]bool
 	marks         map[string]*State
+	frameProbe    bool
 	kernelsUsed   map[string]bool
 	houdiniFailed map[failKey]bool
 	noHoudini     bool
@@ -891,6 +892,7 @@ func (ex *Exec) runLoop(st *State, ls loopShape) Outcomes {
 			nv := freshVal(v.Name(), v.Type())
 			st.vars[v] = nv
 			st.assumeAll(typeFacts(nv))
+			st.assumeAll(ex.allocFacts(st, nv))
 		}
 	}
 	for _, g := range ghosts {
@@ -952,7 +954,7 @@ func (ex *Exec) runLoop(st *State, ls loopShape) Outcomes {
 // state (condition false), the states at the back edge (after ghost updates and
 // the post statement) and the states leaving through break.
 func (ex *Exec) loopIter(st *State, ls loopShape, ghosts []*GhostVar, pos token.Pos) (exitSt *State, backs []*State, brks []*State) {
-	nb := len(st.facts)
+	_ = len(st.facts)
 	cond := True
 	if ls.cond != nil {
 		cond = ls.cond(st)
@@ -969,8 +971,9 @@ func (ex *Exec) loopIter(st *State, ls loopShape, ghosts []*GhostVar, pos token.
 	}
 	backs = append(backs, outs.falls...)
 	backs = append(backs, outs.cont...)
-	if len(backs) > maxPaths {
-		backs = []*State{mergeMany(backs, nb)}
+	if len(backs) > 48 {
+		// back edges are checked one by one (small VCs); only a very large number is merged
+		backs = mergeClosest(backs, 48)
 	}
 	for _, back := range backs {
 		for _, g := range ghosts {
@@ -1504,6 +1507,7 @@ func (ex *Exec) havocFor(st *State, m *ModSet, tag string) {
 		nv := freshVal(v.Name()+"."+tag, v.Type())
 		st.vars[v] = nv
 		st.assumeAll(typeFacts(nv))
+		st.assumeAll(ex.allocFacts(st, nv))
 	}
 	for _, h := range m.heapNames() {
 		srt := m.heaps[h]
@@ -1739,6 +1743,30 @@ func (ex *Exec) varCandidates(st, entrySt *State, ls loopShape) []autoCand {
 				return Neq(x.C[0], IntLit(0))
 			}})
 		case *types.Slice:
+			if _, isPtr := u.Elem().Underlying().(*types.Pointer); isPtr {
+				et := u.Elem()
+				needEntry = append(needEntry, autoCand{name: "elemsnonnil:" + v.Name(), at: func(s *State) *Term {
+					x, ok := s.vars[v]
+					if !ok {
+						return True
+					}
+					p := sliceParts(x)
+					_, h := s.elemHeap(et, flatten(et)[0])
+					q := BVar("q", SInt)
+					sel := Select(Select(h, p.arr), q)
+					return Forall([]*Term{q}, Implies(And(Le(p.off, q), Lt(q, Add(p.off, p.len))), Neq(sel, IntLit(0))), []*Term{sel})
+				}})
+			}
+			if ex.pre != nil {
+				c0 := ex.pre.ctr
+				needEntry = append(needEntry, autoCand{name: "freshslice:" + v.Name(), at: func(s *State) *Term {
+					x, ok := s.vars[v]
+					if !ok {
+						return True
+					}
+					return Or(Eq(x.C[0], IntLit(0)), Ge(x.C[0], c0))
+				}})
+			}
 			e0 := ev.C[2]
 			out = append(out, autoCand{name: "lengrows:" + v.Name(), at: func(s *State) *Term {
 				x, ok := s.vars[v]
